@@ -6,7 +6,8 @@ import Babylon.Swiss.Conc
 
 namespace Babylon.Properties.C03
 open Babylon.Core Babylon.Swiss Babylon.Swiss.Conc
-open Babylon.Gen.Swiss Babylon.Gen.SwissConc
+open Babylon.Gen.SwissConc
+open Babylon.Gen.Swiss (emptyCtl busyCtl dummyCtl groupSize groupMask checkerMask checkerBits dummyLen)
 
 /-! ### generated obligations: the source still has the shape the model was written against -/
 
